@@ -16,7 +16,7 @@ theorem procFirst_eq_find (k : Kinds) (p : PT → Bool) :
 mutual
 /-- every object below a value has a common rule -/
 theorem proc_common (k : Kinds) : ∀ (t : PT), ∀ r ∈ (proc k t).objRules, k r = .common
-  | .term t => by intro r hr; simp [proc, Val.objRules] at hr
+  | .term t v => by intro r hr; simp [proc, Val.objRules] at hr
   | .asgn a ks => by intro r hr; simp [proc, Val.objRules] at hr
   | .nt rule kids => by
     intro r hr
@@ -58,7 +58,7 @@ theorem procFirst_common (k : Kinds) (p : PT → Bool) : ∀ (kids : List PT) (v
       exact procFirst_common k p xs v h
 theorem procAttrs_common (k : Kinds) : ∀ (kids : List PT), ∀ r ∈ objRulesA (procAttrs k kids), k r = .common
   | [] => by intro r hr; simp [procAttrs, objRulesA] at hr
-  | .term t :: xs => by intro r hr; simp only [procAttrs] at hr; exact procAttrs_common k xs r hr
+  | .term t v :: xs => by intro r hr; simp only [procAttrs] at hr; exact procAttrs_common k xs r hr
   | .nt q ks :: xs => by intro r hr; simp only [procAttrs] at hr; exact procAttrs_common k xs r hr
   | .asgn a ks :: xs => by
     intro r hr
@@ -93,34 +93,34 @@ theorem proc_abstr_nm (k : Kinds) (r : Nat) (kids : List PT) (x : PT) (hk : k r 
   · rw [if_neg hlen]
     simp [procFirst_eq_find, hx]
 
-theorem flatL_terms : ∀ (kids : List PT), (∀ x ∈ kids, ∃ t, x = .term t) → kids.find? PT.isNT = none
+theorem flatL_terms : ∀ (kids : List PT), (∀ x ∈ kids, ∃ t v, x = .term t v) → kids.find? PT.isNT = none
   | [], _ => by simp
   | x :: xs, h => by
-    obtain ⟨t, rfl⟩ := h x (by simp)
+    obtain ⟨t, v, rfl⟩ := h x (by simp)
     simp only [List.find?, PT.isNT]
     exact flatL_terms xs (fun y hy => h y (by simp [hy]))
 
-theorem find_isNM_none_of_terms (k : Kinds) : ∀ (kids : List PT), (∀ x ∈ kids, ∃ t, x = .term t) →
+theorem find_isNM_none_of_terms (k : Kinds) : ∀ (kids : List PT), (∀ x ∈ kids, ∃ t v, x = .term t v) →
     kids.find? (PT.isNM k) = none
   | [], _ => by simp
   | x :: xs, h => by
-    obtain ⟨t, rfl⟩ := h x (by simp)
+    obtain ⟨t, v, rfl⟩ := h x (by simp)
     simp only [List.find?, PT.isNM]
     exact find_isNM_none_of_terms k xs (fun y hy => h y (by simp [hy]))
 
-/-- abstract rule, all children are terminals: the concatenated text -/
+/-- abstract rule, a single child: the result of that child (`process_node(node[0])`) -/
+theorem proc_abstr_single (k : Kinds) (r : Nat) (x : PT) (hk : k r = .abstr) :
+    proc k (.nt r [x]) = proc k x := by
+  simp [proc, hk, procFirst]
+
+/-- abstract rule, several children, all of them terminals: the concatenated matched text -/
 theorem proc_abstr_terms (k : Kinds) (r : Nat) (kids : List PT) (hk : k r = .abstr)
-    (hne : kids ≠ []) (hall : ∀ x ∈ kids, ∃ t, x = .term t) :
-    proc k (.nt r kids) = .prim (flatL kids) := by
+    (hlen : 2 ≤ kids.length) (hall : ∀ x ∈ kids, ∃ t v, x = .term t v) :
+    proc k (.nt r kids) = .prim (rawL kids) := by
   simp only [proc, hk]
-  by_cases hlen : kids.length = 1
-  · rw [if_pos hlen]
-    match kids, hlen, hall with
-    | [y], _, hall =>
-      obtain ⟨t, rfl⟩ := hall y (by simp)
-      simp [procFirst, proc, flatL, PT.flat]
-  · rw [if_neg hlen]
-    simp [procFirst_eq_find, flatL_terms kids hall, find_isNM_none_of_terms k kids hall]
+  have hne : ¬ kids.length = 1 := by omega
+  rw [if_neg hne]
+  simp [procFirst_eq_find, flatL_terms kids hall, find_isNM_none_of_terms k kids hall]
 
 /-- abstract rule, several children, only match rules referenced, one of them
 with a non-terminal node: the result of that child alone -/
